@@ -23,6 +23,8 @@ def term_key(v):
         return ("T",) + tuple(term_key(x) for x in v)
     if isinstance(v, dict):
         return ("D",) + tuple((str(k), term_key(x)) for k, x in sorted(v.items(), key=lambda t: str(t[0])))
+    if isinstance(v, slice):
+        return ("S", term_key(v.start), term_key(v.stop), term_key(v.step))
     if isinstance(v, Obj):
         return ("Obj", v.mod, v.cls, id(v))
     if isinstance(v, Func):
@@ -270,7 +272,17 @@ def store(it, o, idx, v):
     raise Unsupported(f"store into {type(o).__name__}")
 
 
+def _nested_shape(o):
+    sh = []
+    while isinstance(o, (list, tuple)):
+        sh.append(len(o))
+        o = o[0] if o else None
+    return tuple(sh)
+
+
 def getattr_(it, o, attr):
+    if isinstance(o, (list, tuple)) and attr == "shape":
+        return _nested_shape(o)
     if isinstance(o, list):
         if attr == "append":
             return lambda x: o.append(x)
